@@ -68,7 +68,7 @@ def make_pop(name, date, as_dict):
     if name == "p1":
         structs = [popgen.CANON["family_2"], popgen.CANON["single"]]
     else:
-        structs = [popgen.CANON["single_parent_1"], popgen.CANON["couple_married"], popgen.CANON["three_gen"]]
+        structs = [popgen.CANON["single_parent_1"], popgen.CANON["family_6"], popgen.CANON["three_gen"]]   # incl. more children than any staggered table lists
     P = popgen.compose(structs, "2023-01-01", rnd)   # ages do not depend on the policy date: the caller holds ONE table
     df = gs.build_population(P, "2023-01-01")
     if as_dict:
@@ -118,13 +118,14 @@ def main():
             g = conc["groups"][st["g"]]
             perturb_inplace(envs[st["e"] - 1]["params"][g])
         elif k == "vectorize":
-            fn = conc["rules"][st["f"]]
+            fnl = conc["rules"][st["f"]]
             fs = envs[st["e"] - 1]["functions"]
-            if fn in fs:
-                try:
-                    make_vectorizable(fs[fn], "numpy")
-                except Exception:  # noqa: BLE001
-                    pass
+            for fn in ([fnl] if isinstance(fnl, str) else fnl):
+                if fn in fs:
+                    try:
+                        make_vectorizable(fs[fn], "numpy")
+                    except Exception:  # noqa: BLE001
+                        pass
         elif k == "compute":
             e = envs[st["e"] - 1]
             key = st["key"]
